@@ -3,7 +3,8 @@
 From Coq Require Import List Arith.
 From GV.lib Require Import Semiring BigSum.
 From GV.model Require Import Linear Wfsa WfsaEps EpsSpec.
-From GV.proofs Require Import WfsaProofs LehmannProof ClosureExtra EpsRemove.
+From GV.gen Require Import Gen_Wfsa.
+From GV.proofs Require Import WfsaProofs LehmannProof ClosureExtra EpsRemove GenWfsaBridge.
 Import ListNotations.
 
 (* the forward pass of WFSA.__call__ on an epsilon-free machine is the sum over all accepting
@@ -48,3 +49,10 @@ Theorem C11_closure_fixpoint : forall (S : StarSR) (nodes : list nat) (A : mat S
   mget (lehmann nodes A) i k = sadd (fid i k) (bsum nodes (fun j => smul (mget (lehmann nodes A) i j) (mget A j k))).
 Proof. intros; split; [apply lehmann_fixpoint_l|apply lehmann_fixpoint_r]; assumption. Qed.
 Print Assumptions C11_closure_fixpoint.
+
+(* WFSA.epsremove as regenerated from wfsa/base.py (with the closure table K of the epsilon graph)
+   is the model's epsremove_with. *)
+Theorem C11_code_epsremove_is_model : forall (S : StarSR) (K : mat S) (m : wfsa S),
+  gen_epsremove_with S K (states_of m) m = epsremove_with K m.
+Proof. intros; apply gen_epsremove_model. Qed.
+Print Assumptions C11_code_epsremove_is_model.
